@@ -20,7 +20,30 @@ PROP = {
             "(extracted tls_server_conn / tls_client_tx run with an oracle built from these tokens) must predict the implementation's "
             "output, and P = implementation served / sent exactly when expected. Every network operation runs under a 2 s deadline; a case whose peer "
             "is expected to be served gets one second attempt if the first missed (loaded machine), a case whose peer must be refused is "
-            "never repeated.",
+            "never repeated. "
+            "Sessions with MORE than one certificate or connection (harness/cmd/implrun/c14b.go, ocaml/scn_tls2.ml): "
+            "tlsresume: one harness crypto/tls server with ONE long-lived tls.Config (it issues and accepts session tickets), presenting "
+            "the valid / pinned / via-intermediate server credential at exactly TLS 1.2 or 1.3, and TWO real modbus clients in this "
+            "process, one after the other, against the same address: A (TLSRootCAs = root set A) does Open + ReadRegister + Close, then "
+            "B (root set B) does the same; root sets: the CA, a foreign CA, the pinned server leaf, another pinned leaf; all orders of "
+            "trust (A trusting then B not, the mirror image, both, neither); observables per client: Open error or not, application bytes "
+            "the server received on that client's connection; each client must be decided by x509.Verify against its OWN roots whatever "
+            "the other client did before (b_open=err b_bytes=0 for an untrusting B after a served A); the cases run strictly one after "
+            "the other (a session cache would be per process). tlsresumectl: two harness crypto/tls clients sharing a ClientSessionCache "
+            "against the same ticket server: the second one resumes (control: the tlsresume server does hand out tickets it accepts). "
+            "tlschainrole: the tlssrv run with clients presenting leaf + issuer: 13 credentials whose ISSUER (intermediate CA, or a "
+            "trusted self-signed root sent along) carries a well-formed Modbus Role extension (UTF8String admin / root) while the leaf's "
+            "own role is empty (no extension, PrintableString, trailing byte, zero-length string, invalid UTF-8, empty value, near-miss "
+            "OID, duplicated extension = unparsable, refused) plus controls (leaf with its own role, issuer without role, issuer not "
+            "presented, leaf + intermediate + root), at TLS 1.2 and 1.3 (all four versions in the thorough tier); the model is given the "
+            "extension lists of ALL presented certificates and the handler must see the role the LEAF states. tlsroles: ONE real "
+            "NewServer(tcp+tls) per case whose client CA pool holds four pinned self-signed leaves and the CA; 2-8 harness TLS clients "
+            "whose certificates ALL carry serial number 1 (pinned leaves with role ops / admin / none / PrintableString, two CA-issued "
+            "leaves with roles viewer / engineer, a stranger and a foreign-CA leaf that are refused), one after the other (seq), all "
+            "sessions open at once with round-robin requests (conc), or one goroutine per connection (par), 1-3 valid requests each with "
+            "the unit id naming the connection; observable per connection: the role of every handler invocation (attributed by unit id, "
+            "cross-checked with ClientAddr) and the responses read; model = tls_start_tls per connection + grun of Model/Sessions.v. "
+            "tlschainrole is also run by `check C15`, tlsroles by `check C11`.",
     "assumptions": [
         "ORACLE HYPOTHESES (explicit premises of the theorems, about Go's standard library, not about this repository): "
         "tls_srv_documented - a crypto/tls server-side Handshake() returns nil only with a TLS peer, at a version the peer offers that is "
@@ -33,7 +56,13 @@ PROP = {
         "certificate verification itself (chain building or pinned leaf, validity period, extended key usage, host name) is the oracle "
         "predicate `verifies` = Go's crypto/x509; not modelled",
         "GODEBUG defaults of the harness binary (go.mod go 1.16, Go 1.23 toolchain) leave TLS 1.0/1.1 available on request; tlsctl checks it",
-        "the 30 s (server) and 15 s (client) handshake deadlines, cipher suites, renegotiation and session resumption are not modelled",
+        "the 30 s (server) and 15 s (client) handshake deadlines, cipher suites and renegotiation are not modelled",
+        "the model has NO state that outlives a connection attempt (no session cache, no certificate or role cache): every handshake is "
+        "decided by the policy of the object it belongs to and by the chain presented on that connection, the role is extract_role of "
+        "the first presented certificate; the implementation is held to that by tlsresume (a ticket-issuing server and two clients "
+        "with different roots in one process), tlschainrole (role-bearing issuers presented along with the leaf) and tlsroles (different "
+        "certificates with one serial number on one server); crypto/tls session resumption itself is Go's (tlsresumectl shows that the "
+        "harness server resumes a client that asks for it)",
     ],
     "trusted": [
         "Go's crypto/tls and crypto/x509 (oracle hypotheses above)",
@@ -55,7 +84,9 @@ CLAIM = {
             "accepts is served: its first valid request is dispatched exactly once, with the role of its leaf certificate, and answered; "
             "the client's request goes out; (T5) the policy constants are pinned by reflexivity. The whole credential x version matrix "
             "(13 client and 13 server credentials x TLS 1.0-1.3, plain-text and garbage peers, constructor subsets) is run against the "
-            "real server and client on every check, with x509.Verify as independent oracle.",
+            "real server and client on every check, with x509.Verify as independent oracle; two clients with different roots against "
+            "one ticket-issuing server, chains whose issuer carries a role, and several certificates with the same serial number on one "
+            "server are run as well (the theorems being per object and per connection, nothing may carry over).",
     "note": "partial: the theorems are CONDITIONAL on the two stated oracle hypotheses about crypto/tls and crypto/x509 (what a nil "
             "Handshake() error means under a given tls.Config); these are Go's, not this repository's, they are in the trusted base and "
             "are exercised - not proved - by the matrix. Certificate verification is not modelled at all (oracle predicate). Handshake "
